@@ -196,7 +196,7 @@ def filt_case(draw):
     return dict(ntr=ntr, nx=nx, cover=cover, lo=lo, hi=hi, ranges=[list(covers[c]) for c in per_trace], direction=draw(st.sampled_from(['increasing', 'decreasing'])),
                 fam=draw(st.sampled_from(['random', 'linear', 'const'])), seed=draw(st.integers(0, 10 ** 6)), c=draw(st.sampled_from([3.0, -2.5, 1e3, 0.0])),
                 mask=draw(st.sampled_from([None, 'runs', 'runs'])), runs=[[draw(st.integers(0, ntr - 1)), draw(st.integers(1, nx - 30)), draw(st.integers(1, 25))] for _ in range(3)],
-                toair=draw(st.booleans()), wset=draw(st.sampled_from([False, False, True])), wfunc=draw(st.sampled_from(['legendre', 'chebyshev', 'poly', 'legendre'])), wxmin=draw(st.sampled_from([0, 0, 1, 500])), grid=draw(st.sampled_from(['log', 'log', 'log', 'linear-wide'])), maskval=draw(st.sampled_from([1, -1, 7, -2147483648])), dead_trace=draw(st.sampled_from([False, False, True])), sandwich=draw(st.sampled_from([False, False, True])), alpha=draw(uf), beta=draw(uf), shift=[draw(uf) for _ in range(4)])
+                toair=draw(st.booleans()), wset=draw(st.sampled_from([False, False, True])), wfunc=draw(st.sampled_from(['legendre', 'chebyshev', 'poly', 'legendre'])), wxmin=draw(st.sampled_from([0, 0, 1, 500])), grid=draw(st.sampled_from(['log', 'log', 'log', 'linear-wide'])), maskval=draw(st.sampled_from([1, -1, 7, -2147483648])), dead_trace=draw(st.sampled_from([False, False, True])), sandwich=draw(st.sampled_from([False, False, True])), wjump=draw(st.sampled_from([False, True])), alpha=draw(uf), beta=draw(uf), shift=[draw(uf) for _ in range(4)])
 
 
 def filt_body(case):
@@ -205,6 +205,11 @@ def filt_body(case):
     ntr, nx = case['ntr'], case['nx']
     k = np.arange(nx, dtype='f8')
     rows = []
+    jump = None
+    if case['wset'] and case.get('wjump') and case.get('grid') != 'linear-wide' and not case.get('sandwich'):
+        x0j = float(case.get('wxmin', 0))
+        jump = dict(xjumplo=x0j, xjumphi=x0j + 10.0, xjumpval=25.0)          # xjumplo = 0 when the columns are numbered from 0
+        note_label('trace-set-with-a-jump')
     for t in range(ntr):
         jit = 0.0 if tuple(case['ranges'][t]) in HAIR.values() else 0.002 * case['shift'][t]
         l0 = math.log10(case['ranges'][t][0]) + jit
@@ -216,6 +221,13 @@ def filt_body(case):
         if case.get('sandwich') and ntr >= 3 and 0 < t < ntr - 1:
             # (see below) a trace whose dispersion has another shape than its neighbours': linear in wavelength instead of in its logarithm
             ll = np.log10(10 ** l0 + (10 ** l1 - 10 ** l0) * k / (nx - 1))
+        if jump is not None:
+            # a detector with a gap: the wavelength is linear in the pixel number plus a ramp of `xjumpval` pixels between xjumplo and xjumphi
+            # (a trace set with a jump describes exactly this; the ramp starts at the first column)
+            xn_ = k + np.clip((k + case.get('wxmin', 0) - jump['xjumplo']) / (jump['xjumphi'] - jump['xjumplo']), 0.0, 1.0) * jump['xjumpval']
+            ll = l0 + (l1 - l0) * xn_ / xn_[-1]
+            rows.append(ll if case['direction'] == 'increasing' else (l0 + l1 - ll))
+            continue
         rows.append(ll if case['direction'] == 'increasing' else ll[::-1].copy())
     if case.get('sandwich') and ntr >= 3:
         # the first and the last trace share one wavelength solution exactly, the traces between them have their own
@@ -238,9 +250,13 @@ def filt_body(case):
         # the wavelength solution as a trace set: any of the three bases, columns numbered from 0, 1 or a CCD offset
         x0_ = case.get('wxmin', 0)
         xpos = np.tile(k + x0_, (ntr, 1))
-        kw['wset'] = xy2traceset(xpos, logwave, ncoeff=3 if case.get('grid') != 'linear-wide' else 6, xmin=x0_, xmax=x0_ + nx - 1, maxiter=0, func=case.get('wfunc', 'legendre'))
+        kw['wset'] = xy2traceset(xpos, logwave, ncoeff=3 if case.get('grid') != 'linear-wide' else 6, xmin=x0_, xmax=x0_ + nx - 1, maxiter=0, func=case.get('wfunc', 'legendre'), **(jump or {}))
         # what the trace set says the wavelengths are (the reference image for everything below, and for a second call with waveimg=)
         wave = 10 ** np.asarray(traceset2xy(kw['wset'])[1], dtype='f8')
+        if jump is not None:
+            # the wavelengths were built to be exactly linear in the jumped coordinate, so the fit is exact and the reference image is the one
+            # built here, not the package's evaluation of its own trace set
+            wave = 10 ** logwave
     else:
         kw['waveimg'] = wave
     mask = None
@@ -265,7 +281,7 @@ def filt_body(case):
         kw_img['waveimg'] = wave.copy()
         r1_img = np.asarray(call(filter_thru, f1.copy(), **kw_img), dtype='f8')
         with judge('wset-vs-waveimg'):
-            check(r1_img.shape == r1.shape and bool(np.all(np.abs(r1_img - r1) <= 1e-9 * max(1.0, np.abs(r1).max()))), 'filter:wset-and-waveimg-disagree',
+            check(r1_img.shape == r1.shape and bool(np.all(np.abs(r1_img - r1) <= (1e-9 if jump is None else 1e-6) * max(1.0, np.abs(r1).max()))), 'filter:wset-and-waveimg-disagree',
                   lambda: dict(maxdev=float(np.abs(r1_img - r1).max()), func=case.get('wfunc'), xmin=case.get('wxmin')))
     if ntr >= 2:
         # "per trace": every row of the answer is a function of that trace alone - the same trace handed over as a one-row image gives the same
